@@ -647,8 +647,9 @@ Corrupted events (TraceBuiltins, -workers 1): a cfold SIntPlus event with the re
 with the result changed by one, a fint SIntLT event with the non-canonical boolean 2, and a second Observe of one input with a
 different digest were each printed as REJECT / DISAGREE (SUMMARY rejected = 3, disagreed = 1); the unmodified event was accepted.
 
-Candidate repairs (hooks/fix-C04-{cfold,fint-bool,timesmod,genc,runtime}.diff applied together with the hook diff): see
-the end of this note for the run; what remains are the two findings without a patch (SIntPlusMod overflow, SIntTimesModInv).
+Candidate repairs (hooks/fix-C04-{cfold,fint-bool,timesmod,genc,runtime}.diff applied together with the hook diff in one
+worktree): exit 0, "held"; the only known findings still hit are the two without a patch (SIntPlusMod overflow: 6 keys;
+SIntTimesModInv: 2 keys); trace summary rejected = 64 (the SIntPlusMod events), disagreed = 0.
 
 False alarms met while building (fixed in the model/harness, never listed as findings): compiler warnings about stale .c
 files shifted the output lines of the -Q2 run; an interpreter abort (SIntTimesModInv "unimplemented") was attributed to the
